@@ -99,8 +99,10 @@ func (b *Block) ToBytes() []byte {
 	buf = append(buf, viewBuf[:]...)
 	buf = append(buf, b.batch.Marshal()...) // may panic
 	buf = append(buf, b.cert.ToBytes()...)
-	var tsBuf [8]byte
-	binary.LittleEndian.PutUint64(tsBuf[:], uint64(b.ts.UnixNano()))
+	// seconds and nanoseconds separately: UnixNano wraps around every 2^64 ns (about 584 years)
+	var tsBuf [12]byte
+	binary.LittleEndian.PutUint64(tsBuf[:8], uint64(b.ts.Unix()))
+	binary.LittleEndian.PutUint32(tsBuf[8:], uint32(b.ts.Nanosecond()))
 	buf = append(buf, tsBuf[:]...)
 	return buf
 }
